@@ -433,8 +433,11 @@ def replay(w):
         if k == 'consts':
             return _replay_consts(w, C, np)
         if k == 'layout':
-            for sc in (scales.MelScaling(), scales.BarkScaling(), scales.LinearScaling(0.0)):
-                lo, hi = max(0.0, w.get('low_hz', 20.0)), min(8001.0, max(w.get('high_hz', 4000.0), 100.0))
+            # the witness range first; further ranges because the solver's real arithmetic cannot name the doubles at which a
+            # floating-point effect (e.g. the length of a float np.arange) strikes
+            cands = [(max(0.0, w.get('low_hz', 20.0)), min(8001.0, max(w.get('high_hz', 4000.0), 100.0)))]
+            cands += [(lo_, hi_) for lo_ in (20.0, 0.0, 64.0, 133.3) for hi_ in (4000.0, 3800.0, 8000.0, 7600.0, 6855.5)]
+            for (lo, hi), sc in itertools.product(cands, (scales.MelScaling(), scales.BarkScaling(), scales.LinearScaling(0.0))):
                 if lo >= hi:
                     lo, hi = 20.0, 4000.0
                 if hi > 8000.0:
@@ -449,6 +452,8 @@ def replay(w):
                     continue
                 b = C(num_filts=w['nf'], low_hz=lo, high_hz=hi, sampling_rate=16000) if w['cls'] == 'Fbank' else C(sc, num_filts=w['nf'], low_hz=lo, high_hz=hi, sampling_rate=16000)
                 cs = list(b.centers_hz)
+                if b.num_filts != w['nf'] or len(cs) != w['nf'] or len(b.supports_hz) != w['nf']:
+                    return {'reproduced': True, 'detail': '%s(%s, num_filts=%d, low_hz=%r, high_hz=%r, sampling_rate=16000) has %d filters (%d centres)' % (w['cls'], type(sc).__name__, w['nf'], lo, hi, b.num_filts, len(cs))}
                 if any(a >= b2 for a, b2 in zip(cs, cs[1:])) or any(not (l < c < h) for c, (l, h) in zip(cs, b.supports_hz)) or any(c > 8000 or c < 0 for c in cs):
                     return {'reproduced': True, 'detail': 'centres %s supports %s' % (cs, b.supports_hz)}
                 scl = scales.MelScaling() if w['cls'] == 'Fbank' else sc
